@@ -223,6 +223,19 @@ impl Scenario for IoFault {
                         }
                     }
                 }
+                {
+                    // one single write of incompressible data larger than the encoders' internal buffers: the compressor
+                    // then touches the sink (and meets the fault) in the middle of a write() call, after part of the
+                    // caller's buffer has already gone in
+                    let mut rb = Rng::derive(s, "big-write");
+                    if rb.chance(1, 6) {
+                        let ws: Vec<usize> = ops.iter().enumerate().filter(|(_, o)| matches!(o, Op::Write { .. })).map(|(i, _)| i).collect();
+                        if !ws.is_empty() {
+                            let at = *rb.pick(&ws);
+                            ops[at] = Op::Write { c: crate::content::Content::Rand { len: rb.range(66_000, 300_000), seed: rb.next_u64() }, split: vec![] };
+                        }
+                    }
+                }
                 if rs.chance(1, 5) {
                     let mut l = gen_layout(&mut r, 3, 300, false);
                     l.trailing = 0;
